@@ -424,10 +424,10 @@ func makeBounds(thorough bool) bounds {
 
 type stats struct {
 	runs, transitions, nontrivial, maxAttempts, maxFast int64
-	pruned                                             int64 // scripts not extended because the call had ended earlier
-	outcomes                                           map[string]int64
-	paths                                              map[uint64]struct{}
-	byPart                                             map[string]int64 // runs per part
+	pruned                                              int64 // scripts not extended because the call had ended earlier
+	outcomes                                            map[string]int64
+	paths                                               map[uint64]struct{}
+	byPart                                              map[string]int64 // runs per part
 }
 
 type best struct {
@@ -823,18 +823,18 @@ func (x *explorer) finish(early bool) {
 			"budgets_ms": budgetsOf(pt.configs), "scripts_x_tails_per_configuration_full_space": full, "runs_executed": x.total.byPart[pt.Name]})
 	}
 	cov := ev.Coverage{
-		"states":                        x.total.runs,
-		"transitions":                   x.total.transitions,
-		"traces_validated_against_impl": x.total.runs,
-		"evaluations":                   x.total.runs,
-		"distinct_nontrivial":           x.total.nontrivial,
-		"distinct_access_paths":         len(x.total.paths),
-		"distinct_outcomes":             len(outs),
-		"outcomes":                      outs,
-		"outcome_classes":               classes,
-		"max_attempts_in_one_call":      x.total.maxAttempts,
+		"states":                                  x.total.runs,
+		"transitions":                             x.total.transitions,
+		"traces_validated_against_impl":           x.total.runs,
+		"evaluations":                             x.total.runs,
+		"distinct_nontrivial":                     x.total.nontrivial,
+		"distinct_access_paths":                   len(x.total.paths),
+		"distinct_outcomes":                       len(outs),
+		"outcomes":                                outs,
+		"outcome_classes":                         classes,
+		"max_attempts_in_one_call":                x.total.maxAttempts,
 		"max_consecutive_resends_without_backoff": x.total.maxFast,
-		"prefixes_not_extended":         x.total.pruned,
+		"prefixes_not_extended":                   x.total.pruned,
 		"rule": "states = executed (configuration, script, tail) triples, all distinct; transitions = RPC attempts made by the real sender; " +
 			"scripts are enumerated depth first over the alphabet and extended only while the call consumes the whole script " +
 			"(a longer script with the same prefix is then the same run); non-trivial = at least 2 attempts or a non-success end",
